@@ -13,7 +13,9 @@ Correspondence (model = lean/IrVerif/Model/Path.lean, driver commands path.*):
     convert_tensors_from_external, Model.clone) vs the model's world (path.world);
   * zero-size tensors, NUL characters, PATH_MAX / NAME_MAX, paths that follow 36..44 symbolic links in one resolution - nested, one
     after the other, mixed (path.readsT / path.reads / path.lstats); bytes locations (path.readsTB); trees whose resolved names are
-    PATH_MAX bytes and longer (path.readsP); histories with a re-pointed symlink on the base path and with os.chdir (path.world);
+    PATH_MAX bytes and longer, incl. the D454 shape where os.path.realpath returns its input for a loop it believes to see (path.readsP;
+    path.nolinks: the prefix walk of check 3 vs the same loop on the kernel); trees with directories the process may not search, read by
+    a child without privileges (path.readsA); histories with a re-pointed symlink on the base path and with os.chdir (path.world);
   * a static AST scan of the imported onnx_ir tree: every file-access call site and every user of path / location / base_dir is
     in an explicit table (modelled entry point, or not location-derived with a reason); the audit hook attributes every open to
     the onnx_ir function that made it;
@@ -67,6 +69,10 @@ THEOREMS = [
     "IrVerif.Path.C10_bytes_location",
     "IrVerif.Path.C10_pathmax_verified_partial",
     "IrVerif.Path.C10_pathmax_safe",
+    "IrVerif.Path.C10_pathmax_safe_full",
+    "IrVerif.Path.C10_blind_safe",
+    "IrVerif.Path.C10_eacces_safe",
+    "IrVerif.Path.C10_world_chdir_safe",
 ]
 ASSUMPTIONS = [
     "POSIX only: os.path.normcase is the identity; Windows/ntpath behaviour is not modelled",
@@ -81,12 +87,18 @@ ASSUMPTIONS = [
     "os.lstat / os.stat (PATH_MAX at the open only), which is exact on trees without names of PATH_MAX bytes or more; PATH_MAX at "
     "every path operation is a second model (readP / checkContainmentP: an entry os.path.realpath cannot lstat is a non-link, "
     "D451) compared with the real code on trees whose resolved names are PATH_MAX - 2 .. 5600 bytes long and on relative spellings "
-    "with ~1270 leading '..' (D453), and with the plain model on the ordinary trees; for it C10_pathmax_safe proves the safe open "
-    "from the repaired cross-check (samestat + fixed points, D451 / D452 / D453) under the hypothesis that the two answers of "
-    "os.path.realpath are link-free (decidable; evaluated on every case where the check passes and the file is read, published as "
-    "pathmax_linkfree=*; 100% hold on the repaired code) - that a fixed point of the blind realpath which the kernel resolves is "
-    "link-free is NOT proved (C10_pathmax_verified_partial states what the cross-check gives without it); ASCII byte counts; "
-    "NAME_MAX as 'no such entry'",
+    "with ~1270 leading '..' (D453), on trees where realpath is led back to the link it is resolving by an entry it cannot lstat (D454), "
+    "and with the plain model on the ordinary trees; for it C10_pathmax_safe_full proves the safe open from the repaired check alone "
+    "(samestat + fixed points + the prefix walk of D454: no prefix of path_real / base_real is a symbolic link; model noLinkOn, compared "
+    "with the same loop on the running kernel on every realpath answer): the hypothesis of C10_pathmax_safe (link-free answers, still "
+    "evaluated and published as pathmax_linkfree=*) is gone - 'a fixed point of the blind realpath which the kernel resolves is "
+    "link-free' turned out to be FALSE (D454); hypothesis left: os.getcwd() is an absolute string; ASCII byte counts; NAME_MAX as 'no such entry'",
+    "EACCES (a directory the process may not search) makes os.lstat / os.stat / open fail like ENAMETOOLONG: C10_blind_safe is about ANY "
+    "restriction of the three system calls (they may fail wherever; what they return is what the kernel returns; an open that succeeds "
+    "implies os.stat of the same string does), C10_eacces_safe the instance with per-directory search permission for the current uid "
+    "(model walkA / sysA: every component that is looked up - a name, '.' or '..' - needs search permission on the directory it is looked up "
+    "in; files are readable once reached; read / write bits and ACLs are not modelled); compared with the real code and the kernel in a "
+    "forked child WITHOUT privileges (dropped to uid nobody when the harness runs as root, which searches every directory)",
     "os.getcwd() names a chain of real directories (true on POSIX); theorems about safe opens assume the recursion bound of "
     "os.path.realpath is at least the kernel's symlink bound; C10_fuel_discharged shows that every such bound gives the outcome of "
     "the kernel's bound itself (hypothesis, evaluated per generated case and published as fuel_hypothesis=*: the location is "
@@ -96,8 +108,10 @@ ASSUMPTIONS = [
     "(modelled in callT); a bytes LOCATION (os.fsencode spelling) raises TypeError with every non-empty base directory before any "
     "check or open, and reads unchecked with the empty bytes base directory (modelled: callTB, theorem C10_bytes_location)",
     "os.chdir between the operations of a history: every call that opens the file resolves a relative base directory from the "
-    "working directory of that call (model: runWorldC, theorem C10_world_chdir_opens); like a change of the tree, a change of "
-    "directory does not drop a mapping (a mapped tensor is served from its mapping while its base directory VALUE is unchanged)",
+    "working directory of that call (model: runWorldC, theorems C10_world_chdir_opens and C10_world_chdir_safe: returned bytes come from an "
+    "open by the same tensor under the same base directory value that was safe in the tree and working directory of the call that made "
+    "it); like a change of the tree, a change of directory does not drop a mapping (a mapped tensor is served from its mapping while its "
+    "base directory VALUE is unchanged)",
     "an ABSOLUTE location that lies inside the base directory is accepted (join(base, abs) = abs, check 1 passes): the "
     "property's 'absolute paths raise' is read as 'absolute paths leading outside the base raise'",
     "an empty base directory disables the checks by design (programmatic construction); the theorems and the oracle are about "
@@ -111,8 +125,9 @@ ASSUMPTIONS = [
     "entry-point completeness is a static AST scan of the imported onnx_ir tree against the tables FILE_SITES / PATH_USERS below: a file "
     "access through a call that the scan's sink list does not name (an unusual library function, exec/eval, a C extension) is not seen "
     "statically; the audit hook (every open event is attributed to the onnx_ir function that made it) covers those dynamically",
-    "st_nlink counts the names of an inode (LinkCountSound; checked on every described tree); file permissions, mount points and "
-    "bind mounts are not modelled; FIFOs, sockets and device nodes are modelled as one kind of non-regular object",
+    "st_nlink counts the names of an inode (LinkCountSound; checked on every described tree); mount points and bind mounts are not "
+    "modelled; of the permissions only the search bit of directories is (see EACCES above); FIFOs, sockets and device nodes are modelled "
+    "as one kind of non-regular object",
 ]
 
 NBYTES = 8
@@ -736,6 +751,8 @@ def _work_body(part, job: dict) -> dict:
         for (case, obs), o1, op in zip(obs_list, outs["r"], outs_p["r"]):
             if op["r"] == "ok" and sp["base"] != "":
                 part.count("pathmax_linkfree=" + ("holds" if op.get("lf") else "FAILS"))
+            if op.get("veq") is not True:
+                part.disagree("the general model over restricted system calls (readV), instantiated with PATH_MAX only (sysP), differs from readP", case, op, None)
             if case["ep"].startswith("tofile") and (o1["r"], o1.get("bytes"), o1["v"], o1["opened"]) != (op["r"], op.get("bytes"), op["v"], op["opened"]):
                 part.disagree("the model with PATH_MAX at every path operation differs from the plain model on a tree without long names", case, o1, op)
     if "r" not in outs or "r" not in outs_k:
@@ -854,6 +871,7 @@ def _realpath_body(part, job: dict) -> dict:
         {"m": "path.realpaths", "fs": fsj, "cwd": cwd, "kfuel": KFUEL, "fuel": PFUEL, "paths": paths},
         {"m": "path.lstats", "fs": fsj, "cwd": cwd, "kfuel": KFUEL, "follow": False, "paths": paths},
         {"m": "path.lstats", "fs": fsj, "cwd": cwd, "kfuel": KFUEL, "follow": True, "paths": paths},
+        {"m": "path.nolinks", "fs": fsj, "cwd": cwd, "kfuel": KFUEL, "paths": paths + [os.path.realpath(p) for p in paths]},
     ])
     for o in outs:
         if "r" not in o:
@@ -868,7 +886,28 @@ def _realpath_body(part, job: dict) -> dict:
             e = show(p, follow)
             if outs[k]["r"][i] != e:
                 part.disagree(("stat" if follow else "lstat") + " model != kernel", {"cwd": cwd, "p": p}, outs[k]["r"][i], e)
+    # the prefix walk of check 3 (D454; model noLinkOn with lstatP) vs the same loop on the running kernel: on the raw strings
+    # (with "..", links, trailing separators) and on what os.path.realpath answers for them
+    for i, p in enumerate(paths + [os.path.realpath(p) for p in paths]):
+        e = real_nolink(p)
+        part.case(["nolink", cwd.replace(R, "$R"), p.replace(R, "$R")], nontrivial=True, fn="nolink-walk", nolink=("passes" if e else "refuses") + ("-raw" if i < len(paths) else "-realpath"))
+        if outs[3]["r"][i] != e:
+            part.disagree("prefix walk (noLinkOn) model != os.lstat / os.path.dirname loop on the kernel", {"cwd": cwd, "p": p}, outs[3]["r"][i], e)
     return part
+
+
+def real_nolink(p: str) -> bool:
+    """the loop the repaired check 3 runs on path_real / base_real (D454), on the running kernel"""
+    try:
+        while True:
+            if stat.S_ISLNK(os.lstat(p).st_mode):
+                return False
+            d = os.path.dirname(p)
+            if d == p:
+                return True
+            p = d
+    except (OSError, ValueError):
+        return False
 
 
 # --------------------------------------------------------------------------- string functions
@@ -1255,6 +1294,8 @@ FILE_SITES = {
                                                                                  "fixed points: realpath(path_real), realpath(base_real) (D453)"),
     ("_core.py", "ExternalTensor._check_path_containment", "os.stat"): (4, "check", "check 3: stat(path) for st_nlink / S_ISREG, and the samestat cross-check of "
                                                                         "os.path.realpath against the kernel: stat(path_real), stat(base_dir), stat(base_real) (D451 / D452); metadata only"),
+    ("_core.py", "ExternalTensor._check_path_containment", "os.lstat"): (1, "check", "check 3: the prefix walk over path_real and base_real (os.path.dirname until it no longer changes): "
+                                                                         "no prefix may be a symbolic link, every prefix must be examinable (D454; model noLinkOn); metadata only"),
     ("_core.py", "Tensor.tofile", ".tofile"): (1, "not-derived", "numpy ndarray.tofile(file): WRITES an in-memory array to the caller's file object"),
     ("_core.py", "PackedTensor.tofile", ".tofile"): (1, "not-derived", "numpy ndarray.tofile(file): WRITES an in-memory array to the caller's file object"),
     ("_core.py", "LazyTensor.tofile", ".tofile"): (2, "delegate", "forwards to the evaluated tensor's tofile / TensorBase.tofile(tobytes())"),
@@ -1539,6 +1580,7 @@ def run(ctx: Ctx) -> None:
         _guard(ctx, "size-zero", size_zero_cases, ctx, tree2, desc2)
         _guard(ctx, "bytes-location", bytes_location_cases, ctx, tree, desc)
         _guard(ctx, "pathmax", pathmax_cases, ctx)
+        _guard(ctx, "eacces", eacces_cases, ctx)
         stateful_sequences(ctx)   # workers: guarded per scenario
         world_sequences(ctx)      # workers: guarded per history
         random_trees(ctx)         # workers: guarded per job
@@ -2411,6 +2453,7 @@ def _short_dotdots(sp: str) -> str:
     """"../../../..." -> "(../ x N)" in the description of a case"""
     import re as _re
 
+    sp = _re.sub(r"([A-Za-z])\1{11,}", lambda m: f"{m.group(1)}(x{len(m.group(0))})", sp)  # the 200-character names
     return _re.sub(r"(?:\.\./){8,}", lambda m: f"(../ x{len(m.group(0)) // 3})", sp)
 
 
@@ -2525,6 +2568,31 @@ def pathmax_cases(ctx: Ctx, only: str | None = None) -> None:
         fill_base()
         for kk in ((4096 - 420 - len(R + "/v")) // 3 + 60, (4096 - 420 - len(R + "/v")) // 3 - 200):
             setups.append(("dotdot-long", ["v"], "../" * kk + (R + "/v").lstrip("/") + "/L", ["ok", "sym", "hard", "sub/f", "dsym_in/f"]))
+        # blind-loop (D454): a SHORT absolute base directory $R/q; inside it 14 real directories E (2.8 kB), there a -> D/x/../(x8)/a
+        # with 7 more real directories D (1.4 kB) and x -> $R/outside/q0/../q7.  os.path.realpath cannot lstat $R/q/E/D/x (4.3 kB), takes it
+        # for a plain entry, strips the ".." lexically, is back at $R/q/E/a - the link it is resolving: "loop", it returns its INPUT.
+        # The kernel follows x, goes up 8 real directories to $R/outside and finds the real directory a there: a/f is a canary.
+        # realpath(path) == path: short, a fixed point, samestat-equal to itself - and not link-free.
+        os.mkdir(R + "/q")
+        nE = _deep_mkdirs(R + "/q", 14, "E")
+        _w("ok", b"INSIDEOK")
+        nD = _deep_mkdirs(".", 7, "D")
+        qs = "/".join(f"q{i}" for i in range(8))
+        os.makedirs(f"{R}/outside/{qs}")
+        os.symlink(f"{R}/outside/{qs}", "x")
+        for _ in nD:
+            os.chdir("..")
+        os.symlink("/".join(nD) + "/x/" + "../" * 8 + "a", "a")
+        os.symlink("/".join(nD) + "/x/" + "../" * 8 + "ok", "b")   # the same detour to a name that is NOT being resolved: "ok" in $R/outside
+        os.symlink("/".join(nD) + "/x/" + "../" * 8 + "c", "c")    # the link that "loops" is the LAST component; $R/outside/c is a regular file
+        os.mkdir(R + "/outside/a")
+        _w(R + "/outside/a/f", b"CANARYAF")
+        _w(R + "/outside/ok", b"CANARYOK")
+        _w(R + "/outside/c", b"CANARYOC")
+        canaries.update({"CANARYAF", "CANARYOK", "CANARYOC"})
+        E_ = "/".join(nE)
+        setups.append(("blind-loop", [], R + "/q", [E_ + "/a/f", E_ + "/c", E_ + "/ok", E_ + "/b", E_ + "/a", E_ + "/a/../ok"]))
+        setups.append(("blind-loop", ["q"] + nE[:5], "/".join(nE[5:]), ["a/f", "c", "ok", "b"]))
         # deep-cwd: R/w/<21 directories>/base, read with the relative base directory "base" from inside
         os.mkdir(R + "/w")
         nw = _deep_mkdirs(R + "/w", 21, "c")
@@ -2554,31 +2622,230 @@ def pathmax_cases(ctx: Ctx, only: str | None = None) -> None:
             cwd = os.getcwd()
             queries, obs_l = [], []
             for li, loc in enumerate(locs):
-                for ep in (ENTRY_POINTS if (loc in ("sym", "hard") and shape != "boundary") or (shape == "blind-dotdot" and li == 0) else [ENTRY_POINTS[li % len(ENTRY_POINTS)], ENTRY_POINTS[(li + 3) % len(ENTRY_POINTS)]]):
-                    case = {"cwd_len": len(cwd), "cwd_steps": len(steps), "base": _short_dotdots(base.replace(R, "$R")), "loc": loc, "ep": ep, "via": "pathmax", "shape": shape}
+                for ep in (ENTRY_POINTS if (loc in ("sym", "hard") and shape != "boundary") or (shape in ("blind-dotdot", "blind-loop") and li <= (1 if shape == "blind-loop" else 0)) else [ENTRY_POINTS[li % len(ENTRY_POINTS)], ENTRY_POINTS[(li + 3) % len(ENTRY_POINTS)]]):
+                    case = {"cwd_len": len(cwd), "cwd_steps": len(steps), "base": _short_dotdots(base.replace(R, "$R")), "loc": _short_dotdots(loc.replace(R, "$R")), "ep": ep, "via": "pathmax", "shape": shape}
                     t = make_tensor(base, loc)
                     obs = real_read(t, ep, top + "/scratch", R)
                     kind = "hardlink" if loc == "hard" else "symlink"
-                    ctx.case(["pathmax", shape, len(steps), len(base), base.replace(R, "$R")[-40:], loc, ep], nontrivial=True, pathmax_shape=shape,
+                    ctx.case(["pathmax", shape, len(steps), len(base), base.replace(R, "$R")[-40:], _short_dotdots(loc.replace(R, "$R")), ep], nontrivial=True, pathmax_shape=shape,
                              pathmax_outcome=(obs["r"] if obs["r"] == "ok" else "raised-" + obs.get("layer", "?")))
                     if obs["r"] == "ok" and obs["bytes"] in canaries and (kind, ep) not in reported:
                         reported.add((kind, ep))  # one failing input per signature: the list of failures of a run is bounded
                         ctx.fail(f"pathmax-escape:{kind}:{ep}", "a read returned the bytes of a file outside the base directory / with several links: the containment "
-                                 "check is blind where os.lstat / os.stat fail with ENAMETOOLONG (resolved names of PATH_MAX bytes or more)", {**case, "obs": {"r": "ok", "bytes": obs["bytes"]}})
+                                 "check is blind where os.lstat / os.stat fail with ENAMETOOLONG (resolved names of PATH_MAX bytes or more; shape blind-loop: os.path.realpath "
+                                 "believes to see a symlink loop and returns its input unresolved, D454)", {**case, "obs": {"r": "ok", "bytes": obs["bytes"]}})
                     queries.append([base, loc, 0, NBYTES])
                     obs_l.append((case, obs))
-            mo = lean_batch([{"m": "path.readsP", "fs": fsj, "cwd": cwd, "kfuel": KFUEL, "fuel": PFUEL, "queries": queries}])[0]
-            if "r" not in mo:
-                ctx.disagree("model error (pathmax)", {"shape": shape}, mo, None)
+            answers = sorted({os.path.realpath(os.path.join(base, q_[1])) for q_ in queries} | {os.path.realpath(base)})
+            mo, mn = lean_batch([{"m": "path.readsP", "fs": fsj, "cwd": cwd, "kfuel": KFUEL, "fuel": PFUEL, "queries": queries},
+                                 {"m": "path.nolinks", "fs": fsj, "cwd": cwd, "kfuel": KFUEL, "paths": answers}])
+            if "r" not in mo or "r" not in mn:
+                ctx.disagree("model error (pathmax)", {"shape": shape}, mo if "r" not in mo else mn, None)
                 continue
+            for a_, m_ in zip(answers, mn["r"]):
+                # the prefix walk of check 3 (D454) on what os.path.realpath answered: model (noLinkOn, lstatP) vs the loop on the kernel
+                e_ = real_nolink(a_)
+                ctx.count(f"pathmax_nolink:{shape}=" + ("passes" if e_ else "refuses"))
+                if m_ != e_:
+                    ctx.disagree("prefix walk (noLinkOn) model != os.lstat / os.path.dirname loop on the kernel (pathmax)", {"shape": shape, "cwd_len": len(cwd), "p": a_.replace(R, "$R")[-80:]}, m_, e_)
             for (case, obs), o in zip(obs_l, mo["r"]):
                 if o["r"] == "ok":  # hypothesis of C10_pathmax_safe on the cases where the check passes and the file is read
                     ctx.count("pathmax_linkfree=" + ("holds" if o.get("lf") else "FAILS"))
+                if o.get("veq") is not True:
+                    ctx.disagree("the general model over restricted system calls (readV), instantiated with PATH_MAX only (sysP), differs from readP", case, o, None)
                 compare(ctx, {**case, "cwd": cwd}, {k_: v_ for k_, v_ in obs.items() if k_ != "own_opens"}, o, {}, R)
                 if (o.get("opened") is None) != (obs["own_opens"] == 0):
                     ctx.disagree("open / no open of the tensor's path differs (pathmax)", case, o, {"r": obs["r"], "own_opens": obs["own_opens"]})
     finally:
         os.chdir(old)
+        shutil.rmtree(top, ignore_errors=True)
+
+
+# --------------------------------------------------------------------------- EACCES: directories the process may not search
+
+
+def _unprivileged_ids():
+    """(uid, gid) to drop to when the harness runs as root (root searches every directory: CAP_DAC_READ_SEARCH), else None"""
+    if os.geteuid() != 0:
+        return None
+    import pwd
+
+    for name in ("nobody", "daemon"):
+        try:
+            e = pwd.getpwnam(name)
+            return (e.pw_uid, e.pw_gid)
+        except KeyError:
+            continue
+    return (65534, 65534)
+
+
+def _eacces_child(wfd: int, ids, cwd: str, base: str, cases: list, stats: list, scratch: str, R: str, key_of: dict) -> None:
+    """runs in a forked child: chdir, drop privileges, the real reads and the system calls; one JSON document on the pipe"""
+    import stat as _stat
+
+    out = {"obs": [], "stats": [], "err": None}
+    try:
+        os.chdir(cwd)
+        if ids is not None:
+            os.setgroups([])
+            os.setgid(ids[1])
+            os.setuid(ids[0])
+        out["uid"] = os.geteuid()
+        for loc, ep in cases:
+            t = make_tensor(base, loc)
+            obs = real_read(t, ep, scratch, R)
+            out["obs"].append({k: v for k, v in obs.items() if k in ("r", "layer", "exc", "bytes", "own_opens", "open_sites")})
+
+        def show(p, follow):
+            try:
+                st = os.stat(p) if follow else os.lstat(p)
+            except (OSError, ValueError):
+                return "none"
+            if _stat.S_ISLNK(st.st_mode):
+                try:
+                    return "l" + os.readlink(p)
+                except OSError:
+                    return "l?"
+            if _stat.S_ISDIR(st.st_mode):
+                return "d"
+            return ("f" if _stat.S_ISREG(st.st_mode) else "o") + f"{key_of.get((st.st_dev, st.st_ino), '?')}"
+
+        for p in stats:
+            out["stats"].append([show(p, False), show(p, True), os.path.realpath(p), real_nolink(p)])
+    except BaseException as e:  # noqa: BLE001
+        out["err"] = f"{type(e).__name__}: {e}"[:300]
+    try:
+        with os.fdopen(wfd, "w") as f:
+            json.dump(out, f)
+    finally:
+        os._exit(0)
+
+
+def eacces_cases(ctx: Ctx) -> None:
+    """EACCES makes os.path.realpath blind the way ENAMETOOLONG does: os.lstat of an entry in a directory the process may not search
+    fails and the entry is taken for a non-link.  Trees with chmod 000 / 0o600 directories - inside the base directory, on the way to
+    it, above the working directory, behind absolute and relative symbolic links, on the detour of a D454-like link - read by a
+    process WITHOUT privileges (a forked child that drops to 'nobody' when the harness runs as root: root searches everything).
+    Model: readV (sysA: PATH_MAX + search permissions; theorem C10_eacces_safe); the model's os.lstat / os.stat / realpath / prefix
+    walk are compared with the child's system calls on the same strings.  Oracle: no byte of a file outside the base directory."""
+    import numpy  # noqa: F401  (everything the child needs is imported BEFORE it drops privileges: it may not be able to read the
+    import onnx_ir  # noqa: F401   interpreter's library directories afterwards)
+
+    make_tensor("", "x")
+    ids = _unprivileged_ids()
+    top = os.path.realpath(tempfile.mkdtemp(prefix="irverif-c10-"))
+    R = os.path.join(top, "r")
+    old = os.getcwd()
+    modes: dict = {}
+    try:
+        os.chmod(top, 0o755)
+        os.mkdir(R)
+        os.mkdir(top + "/scratch")
+        os.chmod(top + "/scratch", 0o777)
+        for d in ("outside", "base", "base/p", "base/q", "base/sub", "U", "U/w", "U/w/b", "U/w/b/sub", "base/p/deep"):
+            os.mkdir(f"{R}/{d}")
+        _w(R + "/outside/canary", b"CANARY_C")
+        _w(R + "/outside/hc", b"CANARY_H")
+        _w(R + "/outside/a", b"CANARY_A")
+        canaries = {"CANARY_C", "CANARY_H", "CANARY_A"}
+        for b_ in ("base", "U/w/b"):
+            _w(f"{R}/{b_}/ok", b"INSIDEOK")
+            _w(f"{R}/{b_}/sub/f", b"INSIDESF")
+            os.symlink(R + "/outside/canary", f"{R}/{b_}/sym")
+            os.symlink("ok", f"{R}/{b_}/sym_in")
+            os.link(R + "/outside/hc", f"{R}/{b_}/hard")
+        for d in ("p", "q"):
+            _w(f"{R}/base/{d}/f", b"INSIDEPF" if d == "p" else b"INSIDEQF")
+            os.symlink(R + "/outside/canary", f"{R}/base/{d}/s")      # a link to outside that nobody can see
+            os.symlink("../ok", f"{R}/base/{d}/s_in")
+        _w(R + "/base/p/deep/f", b"INSIDEDF")
+        os.symlink("p", R + "/base/lp")                                # a link to an unsearchable directory
+        os.symlink(R + "/U/w/b", R + "/base/A")                        # absolute link whose target lies behind an unsearchable directory
+        os.symlink("p/deep/../../a2", R + "/base/a2")                  # D454-like detour through an unsearchable directory, back to itself
+        os.symlink("p/s/../../ok", R + "/base/a3")                     # the detour passes a link nobody can see
+        os.symlink("../../base", R + "/U/w/up")                        # from below the unsearchable directory back to the base
+        nosearch = []
+        for d, m in (("base/p", 0o000), ("base/q", 0o600), ("U", 0o600)):
+            modes[f"{R}/{d}"] = m
+            nosearch.append(f"{R}/{d}")
+        desc = describe_tree(R)
+        check_links(ctx, desc, "eacces tree")
+        for d, m in modes.items():
+            os.chmod(d, m)
+        key_of = {k: info["id"] for k, info in desc["inodes"].items()}
+        fsj = fs_json(desc)
+        b = R + "/base"
+        setups = [  # (shape, cwd, base, locs, strings to lstat / stat / realpath / walk)
+            ("inside", R, b, ["ok", "sym", "hard", "p/f", "p/s", "p/s_in", "q/f", "q/s", "p", "p/../ok", "lp/f", "lp", "p/deep/f", "sub/f", "p/./f", "q/"],
+             [b + "/p", b + "/p/f", b + "/p/s", b + "/q/f", b + "/lp", b + "/lp/f", b + "/p/..", b + "/p/.", b + "/p/", b + "//p//f", b + "/p/deep/../f"]),
+            ("inside", R, "base", ["ok", "p/f", "q/s", "sym", "lp/../ok"], ["base/p/f", "base/q", "base/lp/f", "base/p/../ok"]),
+            ("detour", R, b, ["a2", "a2/f", "a3", "sym_in"], [b + "/a2", b + "/a3", b + "/p/deep/../../a2", b + "/p/s/../../ok"]),
+            ("abs-link-through", R, b, ["A/ok", "A/sym", "A", "A/sub/f"], [b + "/A", b + "/A/ok", R + "/U", R + "/U/w", R + "/U/w/b/ok"]),
+            ("base-behind", R, R + "/U/w/b", ["ok", "sym", "hard", "sub/f"], [R + "/U/w/b", R + "/U/w/b/sym"]),
+            ("cwd-below", R + "/U/w", "b", ["ok", "sym", "hard", "sub/f", "sym_in", "../b/ok"], ["b", "b/ok", "b/sym", "..", "../w", "../w/b/ok", ".", "up", "up/ok", R + "/U/w/b/ok"]),
+            ("cwd-below", R + "/U/w", "up", ["ok", "sym", "p/f"], ["up/p/f", "up/sym"]),
+            ("cwd-below", R + "/U/w/b", ".", ["ok", "sym", "hard"], ["ok", "./sym", "../b/ok"]),
+        ]
+        for shape, cwd, base, locs, stats in setups:
+            cases = []
+            for li, loc in enumerate(locs):
+                for ep in (ENTRY_POINTS if loc in ("sym", "p/s", "a3") else [ENTRY_POINTS[li % len(ENTRY_POINTS)], ENTRY_POINTS[(li + 3) % len(ENTRY_POINTS)]]):
+                    cases.append((loc, ep))
+            stats = stats + [os.path.join(base, l_) for l_ in locs]
+            rfd, wfd = os.pipe()
+            pid = os.fork()
+            if pid == 0:
+                os.close(rfd)
+                _eacces_child(wfd, ids, cwd, base, cases, stats, top + "/scratch", R, key_of)
+            os.close(wfd)
+            raw = None
+            with _time_limit(120.0) as tl:
+                with os.fdopen(rfd, "r") as f:
+                    raw = f.read()
+            if tl.expired:
+                try:
+                    os.kill(pid, 9)
+                except OSError:
+                    pass
+            os.waitpid(pid, 0)
+            if tl.expired or not raw:
+                ctx.fail(f"nontermination:stream:eacces:{shape}", "the unprivileged child did not finish its reads within 120 s", {"shape": shape, "via": "eacces"})
+                continue
+            out = json.loads(raw)
+            if out.get("err") or len(out["obs"]) != len(cases) or len(out["stats"]) != len(stats):
+                ctx.disagree("the unprivileged child raised outside a guarded call of the real code", {"shape": shape, "via": "eacces"}, None, out.get("err"))
+                continue
+            if ids is not None and out.get("uid") == 0:
+                raise Infra("eacces: the child could not drop privileges")
+            ctx.count("eacces_child_uid=" + ("unprivileged" if out.get("uid") != 0 else "root"))
+            mo = lean_batch([{"m": "path.readsA", "fs": fsj, "nosearch": nosearch, "cwd": cwd, "kfuel": KFUEL, "fuel": PFUEL,
+                              "queries": [[base, loc, 0, NBYTES] for loc, _ in cases], "stats": stats}])[0]
+            if "r" not in mo:
+                ctx.disagree("model error (eacces)", {"shape": shape}, mo, None)
+                continue
+            for (loc, ep), obs, o in zip(cases, out["obs"], mo["r"]):
+                case = {"cwd": cwd.replace(R, "$R"), "base": base.replace(R, "$R"), "loc": loc, "ep": ep, "via": "eacces", "shape": shape}
+                ctx.case(["eacces", shape, cwd.replace(R, "$R"), base.replace(R, "$R"), loc, ep], nontrivial=True, eacces_shape=shape,
+                         eacces_outcome=(obs["r"] if obs["r"] == "ok" else "raised-" + obs.get("layer", "?")))
+                if obs["r"] == "ok" and obs.get("bytes") in canaries:
+                    ctx.fail(f"eacces-escape:{ep}", "a read returned the bytes of a file outside the base directory / with several links: the containment check is "
+                             "blind where os.lstat / os.stat fail with EACCES (a directory the process may not search)", {**case, "obs": {"r": "ok", "bytes": obs["bytes"]}})
+                compare(ctx, case, {k_: v_ for k_, v_ in obs.items() if k_ != "own_opens"}, o, {}, R)
+                if (o.get("opened") is None) != (obs["own_opens"] == 0):
+                    ctx.disagree("open / no open of the tensor's path differs (eacces)", case, o, {"r": obs["r"], "own_opens": obs["own_opens"]})
+            for i, (p_, st_) in enumerate(zip(stats, out["stats"])):
+                ctx.case(["eacces-syscalls", shape, cwd.replace(R, "$R"), p_.replace(R, "$R")], nontrivial=True, fn="eacces-lstat/stat/realpath/walk",
+                         eacces_lstat=("none" if st_[0] == "none" else "some"))
+                for name, mine, real in (("lstat", mo["lstat"][i], st_[0]), ("stat", mo["stat"][i], st_[1]), ("realpath", mo["realpath"][i], st_[2]), ("prefix walk", mo["nolink"][i], st_[3])):
+                    if mine != real:
+                        ctx.disagree(f"{name} of the model with search permissions != the unprivileged process's", {"shape": shape, "cwd": cwd.replace(R, "$R"), "p": p_.replace(R, "$R")}, mine, real)
+    finally:
+        os.chdir(old)
+        for d in modes:
+            try:
+                os.chmod(d, 0o755)
+            except OSError:
+                pass
         shutil.rmtree(top, ignore_errors=True)
 
 
@@ -2684,6 +2951,9 @@ def replay(ctx: Ctx, obj: dict) -> None:
         return
     if case.get("via") == "pathmax":
         pathmax_cases(ctx, only=case.get("shape"))
+        return
+    if case.get("via") == "eacces":
+        eacces_cases(ctx)
         return
     tree = build_tree(chains=True)
     old = os.getcwd()
